@@ -68,7 +68,7 @@ def body(c):
                       "thresholds are non-empty with k <= n (compilation asserts this); timelocks are block heights",
                       "sorting clauses compare Rust with Rust (the order chosen by derive(Ord) is not constrained)"]
     c.finish_kw = dict(exhaustive=True, rule=(
-        "TLC: every policy of depth <= 1 (2 in thorough, by composition) over {unsat, trivial, key k1|k2, sha h1, after 1|5, older 1|5} with and/or/"
+        "TLC: every policy of depth <= 1 (2 in thorough: a depth-1 policy composed with a leaf under and, or, thresh) over {unsat, trivial, key k1|k2, sha h1, after 1|5, older 1|5} with and/or/"
         "thresh(k, 2-3) x every subset of available signatures/preimages x lock height/sequence in {0,3,9}: satisfier model = truth, "
         "sorting idempotent and permutation-invariant; sampled cases replayed with real keys, signatures, preimages and environments; "
         "random nested policies (depth 3, thresholds of 2-4 compound children) sorted by the crate and validated by Trace_Policy: sorting only reorders, is idempotent and independent of the given order"))
